@@ -263,13 +263,13 @@ def run_persist_history(cfg, steps, path):
                         out["unwritable_ticks"] = out.get("unwritable_ticks", 0) + 1
                 finally:
                     os.rename(d + ".away", d)
-            elif k in ("restart", "stop", "stop-during-tick"):
+            elif k in ("restart", "stop", "stop-during-tick", "restart-during-tick"):
                 before = projection(pg.gw.sensors)
                 late = st[1] if len(st) > 1 else None
                 n0 = len(pg.eng.sent)
                 known = set(pg.gw.sensors)
                 try:
-                    if k == "stop-during-tick":
+                    if k in ("stop-during-tick", "restart-during-tick"):
                         if pg.stop_during_tick(late, st[2] if len(st) > 2 else "fsync"):
                             out["stops_during_a_tick"] = out.get("stops_during_a_tick", 0) + 1
                     elif pg.stop(late):
